@@ -130,6 +130,7 @@ class CovMonitor(taps.Monitor):
         exp = corr if correlation is True else cov
         # reference
         ctx.ev()
+        ctx.count('judged:covariance:differs-from-reference:' + ('corr' if correlation is True else 'cov'))
         dev = np.abs(got - exp) / unit
         tol = 1e-10 if correlation is True else 1e-9
         if not np.all(dev <= tol):
@@ -825,12 +826,38 @@ def case_error_band(ctx, rng):
     ctx.sample({'helper': 'error_band', 'error_size': esize, 'model': name, 'x': xs, 'beta': [b.value for b in beta], 'band': exp})
 
 
+def instrument(ctx):
+    """count how often every judgement (mechanism) is evaluated: counters 'judged:<mechanism>' in the evidence; trial contexts
+    are instrumented as well (their counters arrive when the trial is absorbed)."""
+    if getattr(ctx, '_vmon_instrumented', False):
+        return ctx
+    ctx._vmon_instrumented = True
+    close, equal, require, trial = ctx.close, ctx.equal, ctx.require, ctx.trial
+
+    def c_close(got, exp, mechanism, *a, **k):
+        ctx.count('judged:' + mechanism)
+        return close(got, exp, mechanism, *a, **k)
+
+    def c_equal(got, exp, mechanism, *a, **k):
+        ctx.count('judged:' + mechanism)
+        return equal(got, exp, mechanism, *a, **k)
+
+    def c_require(cond, mechanism, *a, **k):
+        ctx.count('judged:' + mechanism)
+        return require(cond, mechanism, *a, **k)
+
+    def c_trial():
+        return instrument(trial())
+    ctx.close, ctx.equal, ctx.require, ctx.trial = c_close, c_equal, c_require, c_trial
+    return ctx
+
+
 # ------------------------------------------------------------------------------------------
 def setup(ctx):
     global PE, CTX
     import pyerrors as pe
     PE = pe
-    CTX = ctx
+    CTX = instrument(ctx)
     taps.tap_function(pe.obs, 'covariance', CovMonitor())
 
 
